@@ -138,14 +138,21 @@ def leanchecker(module):
         raise Broken("proof", f"leanchecker {module}", (out + err)[-2000:])
 
 
+HARNESS_NO_UCI = []
+
+
 def cargo_harness(profile="release"):
     args = ["cargo", "build", "--offline", "--manifest-path", os.path.join(VERIF, "harness", "Cargo.toml"),
             "--target-dir", os.path.join(BUILD, "harness")]
     args += ["--release"] if profile == "release" else ["--profile", profile]
-    lock = os.path.join(VERIF, "harness", "Cargo.lock")
     rc, out, err = sh(args, timeout=1800)
     if rc != 0:
-        raise Broken("build", f"harness-{profile}", err[-4000:])
+        # the harness names two private fields of uci.rs; when only that include no longer compiles, build without it:
+        # every operation but the in-process `position` still works (HARNESS_NO_UCI is recorded in the evidence)
+        rc2, out2, err2 = sh(args + ["--no-default-features"], timeout=1800)
+        if rc2 != 0:
+            raise Broken("build", f"harness-{profile}", err[-4000:])
+        HARNESS_NO_UCI.append(err[-1500:])
 
 
 def cargo_engine():
@@ -267,6 +274,8 @@ class Report:
             print(f"VIOLATION property={self.pid} replay={path}{tail}")
             if unknown >= 5:
                 break
+        if HARNESS_NO_UCI:
+            self.coverage["harness_built_without_uci_include"] = HARNESS_NO_UCI[0][-300:]
         if LAST_EXTRACT.get("drift"):
             self.coverage["extractor_drift"] = LAST_EXTRACT["drift"]
         if getattr(self, "widened", None):
